@@ -120,6 +120,19 @@ CHECKS["C13"] = (
     "DESIGN.md 3 (C13)",
 )
 
+CHECKS["C17"] = (
+    "Coq proof (Reals trigonometry + lists) about a hand-written model; exact vm_compute correspondence for table structure, certified-interval certificates (Coq-Interval reflection) for wrap_K rows and time-of-phase",
+    "Theorems: wrap_K's transformation (K -> -K, omega -> omega + pi - 2 pi n) leaves K(cos(omega+f)+e cos omega) unchanged for all f, e, n; an "
+    "accepted row certificate means untouched where K>=0, K'=-K and omega' within 1e-9 of omega+pi mod 2pi in [0,2pi) where K<0; at the time "
+    "returned by get_time_with_phase the mean anomaly equals the requested phase; selection keeps header and metadata and returns the selected "
+    "rows; median_period's index is a member of rank floor(n/2). Each run Coq compares the model with the implementation on random tables (index "
+    "expressions, copy, mean/std metadata, median_period, pack/unpack, every wrap_K row, time-of-phase). unpack(pack) is checked per case on the "
+    "model, its general proof is not done (partial).",
+    "Trusted: Coq kernel + vm_compute; Coq-Interval; stdlib real axioms; astropy unit conversion and Time arithmetic (1e-9); twobody orbits only "
+    "in the predicate (RV curve before/after wrap_K).",
+    "DESIGN.md 3 (C17)",
+)
+
 NOT_YET = {}
 
 
